@@ -141,6 +141,23 @@ def foldExcept {σ β ε : Type} (f : σ → β → Except ε σ) : σ → List 
     | .ok s' => foldExcept f s' xs
     | .error e => .error e
 
+/-- The step does not overwrite an existing container with a new anchor's ACL (true for every
+successful raw step; for an IPv6 file it is the hypothesis that excludes F-C18g). -/
+def stepSafe (orig : List Anchor) (st : St) (k : Anchor) : Bool :=
+  (orig.find? (fun ka => ka.key == k.key)).isSome || !st.conts.has k.acl
+
+/-- Every step of the run is safe (decidable on every concrete input). -/
+def safeRun (dev : Dev) (g : Gen) (isRaw : Bool) (orig : List Anchor) (bt : Table) : St → List Anchor → Bool
+  | _, [] => true
+  | st, k :: ks => stepSafe orig st k &&
+      match ciscoStep dev g isRaw orig bt st k with
+      | .ok st' => safeRun dev g isRaw orig bt st' ks
+      | .error _ => true
+
+/-- `safeRun` for the merge of file `f` into `a`. -/
+def safeMerge (dev : Dev) (g : Gen) (a : Conf) (f : File) : Bool :=
+  safeRun dev g f.isRaw a.anchors f.table { conts := a.conts, anchors := a.anchors } f.anchors
+
 /-- Names of the raw containers no anchor referenced ("Ignoring unused '…' in raw"). -/
 def unusedWarnings (isRaw : Bool) (bt : Table) (refd : List Nat) : List Nat :=
   if isRaw then (bt.map (·.1)).filter (fun n => !refd.contains n) else []
